@@ -37,14 +37,14 @@ class LoopSpec:
     havoc(interp, env, ctx) replaces everything the body may modify by fresh symbols (on top of the
     automatic havoc of body-assigned locals); decreases(interp, env, ctx) -> z3 Int term or None."""
 
-    def __init__(self, inv, havoc=None, decreases=None, prop=None, auto_havoc=True, extra_locals=None,
+    def __init__(self, inv, havoc=None, decreases=None, prop=None, modifies=None, extra_locals=None,
                  setup=None):
         self.setup = setup
+        self.modifies = modifies  # modifies(interp, env, ctx) -> [(obj, field | None)]
         self.inv = inv
         self.havoc = havoc
         self.decreases = decreases
         self.prop = prop
-        self.auto_havoc = auto_havoc
         self.extra_locals = extra_locals or {}
 
 
@@ -64,6 +64,7 @@ class Interp(ExprMixin, CallMixin):
         self.envfn_attr_models = {}
         self.loop_specs = {}  # (func key, ordinal) -> LoopSpec
         self.mutation_hooks = []
+        self.field_hooks = []
         self.stmt_hooks = []
         self.with_hooks = []
         self._enum_sorts = {}
@@ -161,14 +162,13 @@ class Interp(ExprMixin, CallMixin):
         if isinstance(obj, Obj):
             if obj.frozen and not self._in_init_of(obj):
                 self.raise_builtin("AttributeError", node)
+            for h in self.field_hooks:
+                h(self, obj, attr, "write", node)
             obj.fields[attr] = v
             self.note_mutation(obj)
-            for h in self.setattr_hooks:
-                h(self, obj, attr, v, node)
             return
         raise Unsupported(f"setattr on {obj!r}")
 
-    setattr_hooks: list = []
 
     def _in_init_of(self, obj):
         return False
@@ -453,6 +453,116 @@ class Interp(ExprMixin, CallMixin):
 
     field_sorts: dict = {}
 
+    def havoc_declared(self, obj, fld):
+        if isinstance(obj, DequeV):
+            obj.arr = z3.Array(fresh_name("arr"), z3.IntSort(), z3.RealSort())
+            obj.lo = z3.Int(fresh_name("lo"))
+            obj.hi = z3.Int(fresh_name("hi"))
+            return
+        if isinstance(obj, EnumMap):
+            for n in list(obj.slots):
+                if fld is None or fld == n:
+                    obj.slots[n] = self.havoc_value(obj.slots[n], "slot")
+            return
+        if isinstance(obj, Obj):
+            flds = [fld] if fld is not None else list(obj.fields)
+            for f in flds:
+                fv = obj.fields.get(f)
+                h = self.field_sorts.get((obj.cls.name if obj.cls else None, f))
+                if h is not None:
+                    obj.fields[f] = h(self, f)
+                elif isinstance(fv, (DequeV, EnumMap)):
+                    self.havoc_declared(fv, None)
+                elif fv is None or fv is UNDEF:
+                    raise Unsupported(f"havoc of None field {obj!r}.{f} needs a declared sort")
+                else:
+                    obj.fields[f] = self.havoc_value(fv, f)
+            return
+        raise Unsupported(f"havoc_declared({obj!r})")
+
+    def snapshot_heap(self, env):
+        snap = {}
+        stack = []
+        e = env
+        while e is not None:
+            stack.extend(e.vars.values())
+            e = e.parent
+        while stack:
+            v = stack.pop()
+            if isinstance(v, SOpt):
+                stack.append(v.val)
+                continue
+            if isinstance(v, (tuple, list)):
+                stack.extend(v)
+                continue
+            if id(v) in snap:
+                continue
+            if isinstance(v, Obj):
+                snap[id(v)] = (v, dict(v.fields))
+                stack.extend(v.fields.values())
+            elif isinstance(v, DequeV):
+                snap[id(v)] = (v, (v.arr, v.lo, v.hi))
+            elif isinstance(v, EnumMap):
+                snap[id(v)] = (v, dict(v.slots))
+                stack.extend(v.slots.values())
+            elif isinstance(v, EnumSet):
+                snap[id(v)] = (v, dict(v.slots))
+            elif isinstance(v, dict):
+                snap[id(v)] = (v, dict(v))
+                stack.extend(v.values())
+            elif isinstance(v, LockV):
+                snap[id(v)] = (v, (v.held,))
+        return snap
+
+    @staticmethod
+    def _same(a, b):
+        if a is b:
+            return True
+        if isinstance(a, z3.ExprRef) and isinstance(b, z3.ExprRef):
+            return a.eq(b)
+        if isinstance(a, Sym) and isinstance(b, Sym):
+            return a.ty == b.ty and a.t.eq(b.t)
+        if isinstance(a, SOpt) and isinstance(b, SOpt):
+            return a.none.eq(b.none) and Interp._same(a.val, b.val)
+        if isinstance(a, EnumVal) and isinstance(b, EnumVal):
+            return a.t.eq(b.t)
+        if isinstance(a, SFloat) and isinstance(b, SFloat):
+            return a.k.eq(b.k) and a.v.eq(b.v)
+        if isinstance(a, (int, float, str, bool, type(None))) and type(a) is type(b):
+            return a == b
+        return False
+
+    def frame_violations(self, snap, declared):
+        """[(description, ok)] for every heap location changed by the loop body; ok iff it was declared."""
+        dec_whole = {id(o) for (o, f) in declared if f is None}
+        dec_fld = {(id(o), f) for (o, f) in declared if f is not None}
+        out = []
+        for oid, (obj, old) in snap.items():
+            if isinstance(obj, Obj):
+                for f in set(old) | set(obj.fields):
+                    if not self._same(old.get(f, UNDEF), obj.fields.get(f, UNDEF)):
+                        ok = oid in dec_whole or (oid, f) in dec_fld
+                        out.append((f"{obj.cls.name if obj.cls else 'obj'}.{f}", ok))
+            elif isinstance(obj, DequeV):
+                if not (self._same(old[0], obj.arr) and self._same(old[1], obj.lo) and self._same(old[2], obj.hi)):
+                    owner_ok = oid in dec_whole or any(
+                        isinstance(o, Obj) and (f is None or o.fields.get(f) is obj) and (id(o) in dec_whole or (id(o), f) in dec_fld)
+                        for (o, f) in declared)
+                    out.append(("deque", owner_ok))
+            elif isinstance(obj, (EnumMap, EnumSet)):
+                for f in set(old) | set(obj.slots):
+                    if not self._same(old.get(f, UNDEF), obj.slots.get(f, UNDEF)):
+                        out.append((f"map[{f}]", oid in dec_whole or (oid, f) in dec_fld))
+            elif isinstance(obj, dict):
+                if set(old) != set(obj) or any(not self._same(old[k], obj[k]) for k in old):
+                    out.append(("dict", oid in dec_whole))
+            elif isinstance(obj, LockV):
+                if old[0] != obj.held:
+                    out.append(("lock", False))
+        if not out:
+            out.append(("nothing-else-modified", True))
+        return out
+
     def exec_spec_loop(self, node, env, spec: LoopSpec, lo=None, hi=None):
         fkey = env.func.key
         k = self.loop_ordinal(env, node)
@@ -466,28 +576,25 @@ class Interp(ExprMixin, CallMixin):
         for (n, f) in spec.inv(self, env, first, ctx):
             path.oblige(f"{base}/inv-init/{n}", f, prop=prop)
         mode = path.choose(2, "loop")  # 0: arbitrary iteration, 1: exit
-        # --- havoc
-        if spec.auto_havoc:
-            for name in sorted(self.assigned_locals(node.body) | (
-                    {node.target.id} if is_for and isinstance(node.target, ast.Name) else set())):
-                cur = env.vars.get(name, UNDEF)
-                if name in spec.extra_locals:
-                    env.vars[name] = spec.extra_locals[name](self)
-                elif cur is UNDEF or cur is None or cur is self.POISON:
+        # --- havoc: body-assigned locals (syntactic) + the declared heap frame
+        for name in sorted(self.assigned_locals(node.body) | (
+                {node.target.id} if is_for and isinstance(node.target, ast.Name) else set())):
+            cur = env.vars.get(name, UNDEF)
+            if name in spec.extra_locals:
+                env.vars[name] = spec.extra_locals[name](self)
+            elif cur is UNDEF or cur is None or cur is self.POISON:
+                env.vars[name] = self.POISON
+            elif isinstance(cur, (Obj, DequeV, EnumMap, EnumSet, LockV, EnvFn, FuncV, BoundV, LambdaV, ClassV, dict, list)):
+                env.vars[name] = self.POISON
+            else:
+                try:
+                    env.vars[name] = self.havoc_value(cur, name)
+                except Unsupported:
                     env.vars[name] = self.POISON
-                elif isinstance(cur, (Obj, DequeV, EnumMap)):
-                    pass  # heap havoc below
-                else:
-                    try:
-                        env.vars[name] = self.havoc_value(cur, name)
-                    except Unsupported:
-                        env.vars[name] = self.POISON
-            roots = []
-            e = env
-            while e is not None:
-                roots.extend(e.vars.values())
-                e = e.parent
-            self.havoc_heap(roots)
+        declared = spec.modifies(self, env, ctx) if spec.modifies else []
+        for (obj, fld) in declared:
+            self.havoc_declared(obj, fld)
+        snap = self.snapshot_heap(env)
         if spec.havoc is not None:
             spec.havoc(self, env, ctx)
         if mode == 0:
@@ -511,6 +618,8 @@ class Interp(ExprMixin, CallMixin):
             except BreakSig:
                 return
             nxt = wrap_int(idx.t + 1) if is_for else None
+            for (what, ok) in self.frame_violations(snap, declared):
+                path.oblige(f"{base}/frame/{what}", ok, prop=prop)
             for (n, f) in spec.inv(self, env, nxt, ctx):
                 path.oblige(f"{base}/inv-preserved/{n}", f, prop=prop)
             if dec0 is not None:
